@@ -2,7 +2,7 @@
 from world import amounts, enc_f64, f64_from_bits, enc_dec
 
 ID = "C17"
-LEAN_MODULES = ["QtyModel.Props.C17"]
+LEAN_MODULES = ["QtyModel.Props.C17", "QtyModel.Props.C17F64"]
 HARNESS_GROUPS = ('g_ser',)
 RULE = ("every unit of every catalogue and synthetic quantity type x finite amounts incl. adversarial ones (17 significant "
         "digits, full mantissas, 18 fractional digits, extreme exponents); JSON text, serde value tree, deserialisation of "
